@@ -222,4 +222,40 @@ pub fn run(ctx: &Ctx) {
             judge(&cfg, i % 2 == 1, &s, loc);
         }));
     }
+    // product 4: near-miss ids -- the set holds exactly one id, the message carries a similar one
+    {
+        let near: Vec<&'static str> = vec!["AB", "AB ", "AB  ", " AB", "ab", "Ab", "A", "B", "ABC", "ABCD", "abcd", "", "AB\t", "AB.", "0AB", "ÄB", "AB_", "A B", "BA", "AB0"];
+        let n = near.len();
+        let sp = Space::new(&[n, n, 3, 2, 2]);
+        let s2 = sp.clone();
+        let near = &near;
+        ctx.run_family(Family::new("c09.near_miss_ids", sp.size(), format!("id set = one id x, message id = y for all ordered pairs over {} similar ids {:?} (space / NUL / case / prefix / suffix variants) in the application, context or ECU position x log / control message x both conversions: dropped exactly when x != y", n, near), move |i, loc| {
+            let c = s2.coords(i);
+            let (x, y, pos) = (near[c[0]], near[c[1]], c[2]);
+            let set = Some(vec![x.to_string()]);
+            let cfg = DltFilterConfig { min_log_level: None, app_ids: if pos == 0 { set.clone() } else { None }, context_ids: if pos == 1 { set.clone() } else { None }, ecu_ids: if pos == 2 { set.clone() } else { None }, app_id_count: 0, context_id_count: 0 };
+            let processed: ProcessedDltFilterConfig = if c[4] == 1 { ProcessedDltFilterConfig::from(&cfg) } else { ProcessedDltFilterConfig::from(cfg.clone()) };
+            let e = if c[3] == 0 { ext(MSTP_LOG, 3, if pos == 0 { y } else { "APP" }, if pos == 1 { y } else { "CTX" }) } else { ext(MSTP_CONTROL, 1, if pos == 0 { y } else { "APP" }, if pos == 1 { y } else { "CTX" }) };
+            let p = payload_for(false, Some(e.mstp), 0);
+            let mut m = msg_with(0x04, 1, Some(e), p, None);
+            m.ecu = Some(if pos == 2 { y.to_string() } else { "ECU1".to_string() });
+            let bytes = encode(&m).0;
+            loc.evals += 1;
+            loc.traces += 1;
+            loc.transitions += 1;
+            loc.state(i, x != y);
+            let desc = format!("{} id set {{{:?}}}, message id {:?}, message {}", ["application", "context", "ECU"][pos], x, y, hex(&bytes));
+            match catch(|| dlt_message(&bytes, Some(&processed), false).map(|(rest, pm)| (rest.len(), pm))) {
+                Ok(Ok((0, ParsedMessage::FilteredOut(k)))) if x != y && k == m.payload_len as usize => loc.outcome("dropped as stated"),
+                Ok(Ok((0, ParsedMessage::Item(_)))) if x == y => loc.outcome("kept as stated"),
+                other => {
+                    loc.outcome("near-miss handled wrongly");
+                    loc.violation("id comparison is not exact", format!("{}: expected {}, got {:?}", desc, if x != y { "FilteredOut" } else { "the message" }, other.map(|r| r.map(|(n, pm)| (n, format!("{:?}", pm).chars().take(60).collect::<String>())))), json!({"case": desc}));
+                }
+            }
+        }));
+    }
+    // the filter through both readers under fragmentation, against parsing each piece with the same filter
+    crate::bulk::run_bulk_selected(ctx, "c09.blocking", false, &["long_streams"]);
+    crate::bulk::run_bulk_selected(ctx, "c09.async", true, &["long_streams"]);
 }
